@@ -139,7 +139,7 @@ def gen_record_case(rng):
     small = '<rpc-reply message-id="%d" xmlns="urn:ietf:params:xml:ns:netconf:base:1.0"><ok/></rpc-reply>' % rng.randint(1, 999)
     big = '<notification xmlns="urn:ietf:params:xml:ns:netconf:notification:1.0"><e>%s</e></notification>' % gen_text(rng, rng.choice([5000, 9000, 15000]))
     tail = '<x>%s</x>' % gen_text(rng, 40)
-    msgs = [small, big, tail]
+    msgs = [m.replace(']]>]]>', ']]>]] >') for m in (small, big, tail)]
     if base11:
         from oracle.framing_spec import enc11
         chunked = [[m.encode('utf-8')] for m in msgs]
